@@ -1,3 +1,352 @@
+(* C12 -- Crystal map phase bookkeeping stays consistent.
+   Property theorems only; proofs are in Proofs/C12PhasesP.v, C12MapP.v, C12WitnessP.v.
+   The statements are about the hand-written executable model Model/C12Phases.v
+   (PhaseList) and Model/C12Map.v (CrystalMap phase reconciliation, phase_id setter,
+   phases_in_data, orientations, selections, property assignment), which the
+   correspondence check ties to /repo on every run.  All theorems are axiom-free. *)
 From Coq Require Import ZArith List Bool String.
-From Verif Require Import C12Phases C12Map.
-Theorem C12_stub : True. Proof. exact I. Qed.
+From Verif Require Import C12Phases C12Map C12PhasesP C12MapP C12WitnessP.
+Import ListNotations.
+Open Scope Z_scope.
+
+(* ======================================================= phase lists *)
+
+(* every constructor path yields ids that are strictly increasing (unique, sorted):
+   list of phases (+ ids, duplicate / unsorted / too few / too many), dict, fields *)
+Theorem C12_pl_constructors_sorted :
+  (forall idl ps, sortedk (pl_of_phases idl ps)) /\ (forall d, sortedk (pl_of_dict d)) /\
+  (forall nm pg idl pl, pl_of_fields nm pg idl = Ok pl -> sortedk pl).
+Proof. exact (conj pl_of_phases_sorted (conj pl_of_dict_sorted pl_of_fields_sorted)). Qed.
+Print Assumptions C12_pl_constructors_sorted.
+
+(* ids stay unique and sorted under ANY sequence of add / delete / add_not_indexed /
+   sort / index operations (indexing continues with the returned list) *)
+Theorem C12_pl_histories_sorted : forall ops pl, sortedk pl -> sortedk (pl_run ops pl).
+Proof. exact pl_run_sorted. Qed.
+Print Assumptions C12_pl_histories_sorted.
+
+(* adding a phase whose name is already present is rejected and changes nothing *)
+Theorem C12_add_rejects_present_name : forall pl p r,
+  In (pname p) (names pl) -> add pl (p :: r) = (pl, Some ValueError).
+Proof. exact add_present_rejected. Qed.
+Print Assumptions C12_add_rejects_present_name.
+
+(* add raises exactly when a name clashes with the list or with an earlier added phase *)
+Theorem C12_add_raises_iff : forall ps pl,
+  snd (add pl ps) = None <-> (NoDup (map pname ps) /\ forall p, In p ps -> ~ In (pname p) (names pl)).
+Proof. exact add_ok_iff. Qed.
+Print Assumptions C12_add_raises_iff.
+
+(* a fresh name is appended with id max + 1; names stay pairwise distinct; old entries stay *)
+Theorem C12_add_fresh : forall pl p,
+  ~ In (pname p) (names pl) -> add pl [p] = ((pl ++ [(new_id pl, p)])%list, None).
+Proof. exact add_fresh. Qed.
+Print Assumptions C12_add_fresh.
+
+Theorem C12_add_keeps_names_distinct : forall ps pl, NoDup (names pl) -> NoDup (names (fst (add pl ps))).
+Proof. exact add_names_NoDup. Qed.
+Print Assumptions C12_add_keeps_names_distinct.
+
+(* indexing by id(s): exactly the phases with those ids, in id order; one match gives
+   the phase itself; a missing id is a KeyError *)
+Theorem C12_index_by_ids : forall pl ks, sortedk pl ->
+  (forall k, In k ks -> In k (ids pl)) ->
+  the_result (by_ids pl ks) (filter (fun kv => memZ (fst kv) ks) pl).
+Proof. exact by_ids_spec. Qed.
+Print Assumptions C12_index_by_ids.
+
+Theorem C12_index_missing_id : forall pl ks k,
+  In k ks -> ~ In k (ids pl) -> by_ids pl ks = IErr KeyError.
+Proof. exact by_ids_missing. Qed.
+Print Assumptions C12_index_missing_id.
+
+(* indexing by name(s): exactly the phases whose name is among the keys *)
+Theorem C12_index_by_names : forall pl ks, sortedk pl ->
+  the_result (by_names pl ks) (filter (fun kv => memS (pname (snd kv)) ks) pl).
+Proof. exact by_names_spec. Qed.
+Print Assumptions C12_index_by_names.
+
+(* indexing by slice: exactly the phases whose id, counted from the first element of
+   arange(first, max + 1) (first = -1 iff the list starts with not_indexed), is
+   selected by the python slice -- any start / stop / step *)
+Theorem C12_index_by_slice : forall pl a b s pos, sortedk pl -> pl <> [] ->
+  slice_indices (slice_len pl) a b s = Some pos ->
+  the_result (by_slice pl a b s) (filter (fun kv => memZ (fst kv - slice_start pl) pos) pl).
+Proof. exact by_slice_spec. Qed.
+Print Assumptions C12_index_by_slice.
+
+Theorem C12_index_slice_contiguous : forall pl a b, sortedk pl -> pl <> [] -> 0 <= a -> 0 <= b ->
+  the_result (index pl (KSlice (Some a) (Some b) None))
+    (filter (fun kv => (a <=? fst kv - slice_start pl) && (fst kv - slice_start pl <? b)) pl).
+Proof. exact slice_contiguous. Qed.
+Print Assumptions C12_index_slice_contiguous.
+
+(* deleting by id / by name removes exactly that entry; missing -> KeyError *)
+Theorem C12_del_by_id : forall pl i, sortedk pl ->
+  del pl (DelInt i) = if memZ i (ids pl) then Ok (filter (fun kv => negb (fst kv =? i)) pl) else Err KeyError.
+Proof. exact del_int_spec. Qed.
+Print Assumptions C12_del_by_id.
+
+Theorem C12_del_by_name : forall pl s, sortedk pl ->
+  del pl (DelStr s) = match first_id_with_name s pl with
+                      | Some i => Ok (filter (fun kv => negb (fst kv =? i)) pl)
+                      | None => Err KeyError
+                      end.
+Proof. exact del_str_spec. Qed.
+Print Assumptions C12_del_by_name.
+
+(* add_not_indexed: id -1 becomes the not_indexed phase, every other id keeps its phase *)
+Theorem C12_add_not_indexed : forall pl j, NoDup (ids pl) ->
+  dict_get j (add_not_indexed pl) = if j =? -1 then Some ni_phase else dict_get j pl.
+Proof. exact add_not_indexed_get. Qed.
+Print Assumptions C12_add_not_indexed.
+
+(* ===================================================== construction *)
+
+(* for ANY non-empty phase-id array and ANY (sorted) phase list -- fewer, equal or more
+   phases, arbitrary ids -- the phase list of the new map has EXACTLY the ids present
+   in the data (-1 included), sorted *)
+Theorem C12_init_ids_exact : forall pid pl p,
+  (forall pl0, pl = Some pl0 -> sortedk pl0) ->
+  init_phases pid pl = Ok p -> ids p = uniq pid /\ sortedk p.
+Proof. exact init_phases_ids. Qed.
+Print Assumptions C12_init_ids_exact.
+
+(* the full invariant after construction (ids >= -1; the caller's list holds no phase
+   named "not_indexed" -- see C12_init_not_indexed_refuted for why this is needed) *)
+Theorem C12_init_invariant_outside_finding : forall pid pl props st,
+  (forall pl0, pl = Some pl0 -> sortedk pl0 /\ ~ In ni_name (names pl0)) ->
+  (forall x, In x pid -> -1 <= x) ->
+  init pid pl props = Ok st -> Inv st.
+Proof. exact init_Inv. Qed.
+Print Assumptions C12_init_invariant_outside_finding.
+
+(* FINDING (model faithful, replayed on the implementation): a caller's list that holds
+   not_indexed at id -1 (e.g. another map's .phases) is relinked by list order, so
+   "not_indexed" lands on a non-negative id *)
+Theorem C12_init_not_indexed_refuted :
+  exists pid pl st,
+    sortedk pl /\ (forall i p, In (i, p) pl -> (pname p = ni_name <-> i = -1)) /\
+    (forall x, In x pid -> -1 <= x) /\ init pid (Some pl) [] = Ok st /\
+    exists i p, In (i, p) (s_phases st) /\ pname p = ni_name /\ i <> -1.
+Proof. exact init_not_indexed_refuted. Qed.
+Print Assumptions C12_init_not_indexed_refuted.
+
+(* the linking rule, as closed forms of the constructor's reconciliation.
+   u = sorted ids of the data without -1. *)
+(* same ids: the list is kept *)
+Theorem C12_init_rule_same_ids : forall pl, sortedk pl -> reconcile pl (ids pl) = pl.
+Proof. exact reconcile_same_ids. Qed.
+Print Assumptions C12_init_rule_same_ids.
+
+(* every data id is listed: phases of the ids present keep their ids, the rest is dropped *)
+Theorem C12_init_rule_superset : forall pl u, sortedk pl -> sortedZ u ->
+  (forall x, In x u -> In x (ids pl)) ->
+  reconcile pl u = filter (fun kv => memZ (fst kv) u) pl.
+Proof. exact reconcile_superset. Qed.
+Print Assumptions C12_init_rule_superset.
+
+(* as many phases as ids: linked by list order *)
+Theorem C12_init_rule_equal : forall pl u, sortedZ u -> List.length pl = List.length u ->
+  reconcile pl u = combine u (map snd pl).
+Proof. exact reconcile_equal. Qed.
+Print Assumptions C12_init_rule_equal.
+
+(* more phases than ids: the surplus is removed among the phases whose id is absent from
+   the data, from the highest id down; the rest is linked by list order *)
+Theorem C12_init_rule_more : forall pl u, sortedk pl -> sortedZ u ->
+  (List.length u < List.length pl)%nat ->
+  reconcile pl u = combine u (map snd (filter (fun kv => negb (memZ (fst kv) (drop_set pl u))) pl)).
+Proof. exact reconcile_more. Qed.
+Print Assumptions C12_init_rule_more.
+
+(* fewer phases than ids: each id takes the phase listed under that id, a default phase
+   otherwise (linked by ID -- the caller's phases with other ids are dropped; see design.d) *)
+Theorem C12_init_rule_fewer : forall pl u, sortedZ u -> (List.length pl < List.length u)%nat ->
+  reconcile pl u = map (fun i => (i, lookup_or_default pl i)) u.
+Proof. exact reconcile_fewer. Qed.
+Print Assumptions C12_init_rule_fewer.
+
+(* ================================== invariant over all histories *)
+
+(* each operation preserves the invariant under the property's side condition *)
+Theorem C12_step_invariant : forall s o, Inv (m_store s) -> op_ok s o -> Inv (m_store (fst (step s o))).
+Proof. exact step_Inv. Qed.
+Print Assumptions C12_step_invariant.
+
+(* every state reachable from a construction by any sequence of selections (by names,
+   indexed / not_indexed, masks; from any earlier selection), scalar phase_id
+   assignments of -1 or listed ids, array assignments of listed ids, property assignments
+   and add / delete(unused id) / add_not_indexed / sort on the map's phase list satisfies:
+   ids sorted and unique; every phase id of the data (hence of every selection) is listed;
+   a phase is named not_indexed iff its id is -1. *)
+Theorem C12_history_invariant_outside_finding : forall pid pl props st v0 ops,
+  (forall pl0, pl = Some pl0 -> sortedk pl0 /\ ~ In ni_name (names pl0)) ->
+  (forall x, In x pid -> -1 <= x) ->
+  init pid pl props = Ok st ->
+  run_ok ops (mkState st [v0]) ->
+  Inv (m_store (run ops (mkState st [v0]))).
+Proof. exact reachable_Inv. Qed.
+Print Assumptions C12_history_invariant_outside_finding.
+
+(* FINDING: array assignment of ids that are -1 or listed (length >= 2) breaks the
+   invariant when -1 is assigned and not_indexed is not yet listed ... *)
+Theorem C12_set_phase_id_array_refuted :
+  exists st v zs, Inv st /\ List.length v = List.length (s_pid st) /\ List.length zs = count v /\
+    (forall z, In z zs -> z = -1 \/ In z (ids (s_phases st))) /\
+    ~ Inv (fst (set_pid st v (PArr zs))).
+Proof. exact set_pid_array_refuted. Qed.
+Print Assumptions C12_set_phase_id_array_refuted.
+
+(* ... and EVERY array assignment of the right length >= 2 assigns exactly the selected
+   points and THEN raises ValueError, leaving the phase list untouched *)
+Theorem C12_set_phase_id_array_frame_and_raises : forall st v zs,
+  List.length v = List.length (s_pid st) -> List.length zs = count v -> (2 <= List.length zs)%nat ->
+  let st' := fst (set_pid st v (PArr zs)) in
+  select_by v (s_pid st') = zs /\
+  select_by (map negb v) (s_pid st') = select_by (map negb v) (s_pid st) /\
+  s_props st' = s_props st /\ s_phases st' = s_phases st /\
+  snd (set_pid st v (PArr zs)) = Some ValueError.
+Proof. exact set_pid_array_frame. Qed.
+Print Assumptions C12_set_phase_id_array_frame_and_raises.
+
+(* scalar assignment through a selection changes exactly the selected points *)
+Theorem C12_set_phase_id_scalar_frame : forall st v z, List.length v = List.length (s_pid st) ->
+  let st' := fst (set_pid st v (PScalar z)) in
+  select_by v (s_pid st') = repeat z (count v) /\
+  select_by (map negb v) (s_pid st') = select_by (map negb v) (s_pid st) /\
+  s_props st' = s_props st.
+Proof. exact set_pid_scalar_frame. Qed.
+Print Assumptions C12_set_phase_id_scalar_frame.
+
+(* ================================= phases_in_data and orientations *)
+
+(* two or more phases in the selection: exactly the entries of the ids present *)
+Theorem C12_phases_in_data_many : forall st v, Inv st -> (2 <= List.length (present st v))%nat ->
+  exists sel, phases_in_data st v = Ok sel /\ ids sel = present st v /\
+              (forall x, In x sel -> In x (s_phases st)) /\ sortedk sel.
+Proof. exact phases_in_data_many. Qed.
+Print Assumptions C12_phases_in_data_many.
+
+(* one phase in the selection, no other listed phase with the same name: exact *)
+Theorem C12_phases_in_data_single_outside_finding : forall st v i p, Inv st -> present st v = [i] ->
+  dict_get i (s_phases st) = Some p ->
+  (forall j q, In (j, q) (s_phases st) -> pname q = pname p -> j = i) ->
+  phases_in_data st v = Ok [(i, p)].
+Proof. exact phases_in_data_single_exact. Qed.
+Print Assumptions C12_phases_in_data_single_outside_finding.
+
+(* in general the single phase is right but labelled with the FIRST id carrying its name *)
+Theorem C12_phases_in_data_single_partial : forall st v i p, Inv st -> present st v = [i] ->
+  dict_get i (s_phases st) = Some p ->
+  exists j, first_id_with_name (pname p) (s_phases st) = Some j /\
+            phases_in_data st v = Ok [(j, p)] /\ In j (ids (s_phases st)).
+Proof. exact phases_in_data_single. Qed.
+Print Assumptions C12_phases_in_data_single_partial.
+
+(* FINDING: unnamed phases 0 and 3, selection holding only id 3: phases_in_data says id 0 *)
+Theorem C12_phases_in_data_refuted :
+  exists st v pl, Inv st /\ List.length v = List.length (s_pid st) /\
+    phases_in_data st v = Ok pl /\ ids pl <> present st v.
+Proof. exact phases_in_data_refuted. Qed.
+Print Assumptions C12_phases_in_data_refuted.
+
+(* orientations of a single-phase selection carry that phase's point group (TypeError when
+   the phase has none); several phases -> ValueError *)
+Theorem C12_orientations_single : forall st v i p, Inv st -> present st v = [i] ->
+  dict_get i (s_phases st) = Some p ->
+  orientations st v = match ppg p with Some g => Ok g | None => Err TypeError end.
+Proof. exact orientations_single. Qed.
+Print Assumptions C12_orientations_single.
+
+Theorem C12_orientations_many : forall st v, Inv st -> (2 <= List.length (present st v))%nat ->
+  orientations st v = Err ValueError.
+Proof. exact orientations_many. Qed.
+Print Assumptions C12_orientations_many.
+
+(* ============================================ property assignment *)
+
+(* value dtype = array dtype: exactly the selected points change, other keys untouched *)
+Theorem C12_set_prop_scalar_frame_outside_finding : forall st v k a z,
+  prop_get k (s_props st) = Some a -> List.length v = List.length (pvals a) ->
+  let st' := fst (set_prop st v k (VScalar (pdt a) z)) in
+  exists a', prop_get k (s_props st') = Some a' /\ pdt a' = pdt a /\
+    select_by v (pvals a') = repeat z (count v) /\
+    select_by (map negb v) (pvals a') = select_by (map negb v) (pvals a) /\
+    s_pid st' = s_pid st /\ s_phases st' = s_phases st /\
+    (forall k', k' <> k -> prop_get k' (s_props st') = prop_get k' (s_props st)).
+Proof. exact set_prop_scalar_frame. Qed.
+Print Assumptions C12_set_prop_scalar_frame_outside_finding.
+
+Theorem C12_set_prop_array_frame_outside_finding : forall st v k a zs,
+  prop_get k (s_props st) = Some a -> List.length v = List.length (pvals a) ->
+  List.length zs = count v -> (2 <= List.length zs)%nat ->
+  let st' := fst (set_prop st v k (VArr (pdt a) zs)) in
+  exists a', prop_get k (s_props st') = Some a' /\ pdt a' = pdt a /\
+    select_by v (pvals a') = zs /\
+    select_by (map negb v) (pvals a') = select_by (map negb v) (pvals a) /\
+    s_pid st' = s_pid st /\ s_phases st' = s_phases st /\
+    (forall k', k' <> k -> prop_get k' (s_props st') = prop_get k' (s_props st)).
+Proof. exact set_prop_array_frame. Qed.
+Print Assumptions C12_set_prop_array_frame_outside_finding.
+
+(* int array, float value: the unselected points keep their numbers (as floats) *)
+Theorem C12_set_prop_int_to_float_frame : forall st v k l z,
+  prop_get k (s_props st) = Some (mkArr DInt l) -> List.length v = List.length l ->
+  let st' := fst (set_prop st v k (VScalar DFlt z)) in
+  exists a', prop_get k (s_props st') = Some a' /\ pdt a' = DFlt /\
+    select_by v (pvals a') = repeat z (count v) /\
+    select_by (map negb v) (pvals a') = map (fun x => x * 4) (select_by (map negb v) l).
+Proof. exact set_prop_int_to_float_frame. Qed.
+Print Assumptions C12_set_prop_int_to_float_frame.
+
+(* FINDING: float array, int value: the WHOLE array is cast, unselected 0.5 becomes 0 *)
+Theorem C12_set_prop_frame_refuted :
+  exists st v k a z a',
+    prop_get k (s_props st) = Some a /\ List.length v = List.length (pvals a) /\ pdt a = DFlt /\
+    prop_get k (s_props (fst (set_prop st v k (VScalar DInt z)))) = Some a' /\ pdt a' = DInt /\
+    map (fun x => x * 4) (select_by (map negb v) (pvals a')) <> select_by (map negb v) (pvals a).
+Proof. exact set_prop_frame_refuted. Qed.
+Print Assumptions C12_set_prop_frame_refuted.
+
+(* ======================================================= selections *)
+
+(* a selection never contains a point absent from the map it was taken from *)
+Theorem C12_select_subset : forall st v s v' k,
+  select st v s = Ok v' -> nth k v' false = true -> nth k v false = true.
+Proof. exact select_subset. Qed.
+Print Assumptions C12_select_subset.
+
+(* selection by names: point k is selected iff it was in the map and a key names the phase
+   listed under its id (or the key is "indexed" and the id is not -1) *)
+Theorem C12_select_by_names : forall st v ks v' k,
+  select st v (SNames ks) = Ok v' -> (k < List.length v)%nat -> List.length v = List.length (s_pid st) ->
+  nth k v' false = nth k v false && existsb (fun n => name_hits (s_phases st) n (nth k (s_pid st) 0)) ks.
+Proof. exact select_names_spec. Qed.
+Print Assumptions C12_select_by_names.
+
+(* the `phases` setter guards only the size: it does not protect the invariant *)
+Theorem C12_phases_setter_guard_partial :
+  exists st v value, Inv st /\ set_phases_guard st v value = true /\ sortedk value /\
+    ~ Inv (mkStore (s_pid st) value (s_props st)).
+Proof. exact phases_setter_guard_insufficient. Qed.
+Print Assumptions C12_phases_setter_guard_partial.
+
+(* ====================================================== non-vacuity *)
+Example C12_history_nonvacuous :
+  exists st, init [0; 1; 1] None [] = Ok st /\ run_ok ex_ops (mkState st [[true; true; true]]) /\
+    s_pid (m_store (run ex_ops (mkState st [[true; true; true]]))) = [1; 1; 1] /\
+    ids (s_phases (m_store (run ex_ops (mkState st [[true; true; true]])))) = [-1; 0; 1].
+Proof. exact history_nonvacuous. Qed.
+
+Example C12_init_nonvacuous :
+  exists st, init [2; -1; 7; 2] (Some [(0, mkPhase "a" (Some "m-3m"%string) 0); (1, mkPhase "b" None 0);
+                                      (4, mkPhase "c" None 0)]) [] = Ok st
+             /\ ids (s_phases st) = [-1; 2; 7]
+             /\ names (s_phases st) = ["not_indexed"%string; "a"%string; "b"%string].
+Proof. exact init_nonvacuous. Qed.
+
+Example C12_slice_nonvacuous :
+  index [(-1, ni_phase); (0, default_phase); (2, mkPhase "c" None 0)] (KSlice (Some 0) (Some 2) None)
+  = IMany [(-1, ni_phase); (0, default_phase)].
+Proof. exact slice_nonvacuous. Qed.
